@@ -160,8 +160,13 @@ def encoder_order(chk, c, rule):
             (isinstance(n.func, ast.Name) and n.func.id == 'reversed' and fq != 'core._remove_trailing'))]
         chk.ob(rule, '%s does not reorder' % fq, not bad, 'reordering: %s' % bad, fi.loc, key='%s|%s' % (rule, fq))
     rt = ix.func('core._remove_trailing')
-    ok = any(isinstance(n, ast.Assign) and norm(n.value) == 'children[:-len(trailing)]' for n in own_nodes(rt.node)) and \
-        any('takewhile(lambda x: not x, reversed(children))' in norm(n) for n in own_nodes(rt.node) if isinstance(n, ast.Assign))
+    rp = rt.params[0]
+    rebinds = [n.value for n in own_nodes(rt.node) if isinstance(n, ast.Assign) and norm(n.targets[0]) == rp]
+    # every rebinding keeps a prefix (children[:k]); what is cut is tested for emptiness (`not x`)
+    ok = bool(rebinds) and all(isinstance(v, ast.Subscript) and norm(v.value) == rp and isinstance(v.slice, ast.Slice) and
+                               v.slice.lower is None and v.slice.step is None for v in rebinds) and \
+        any(isinstance(n, ast.UnaryOp) and isinstance(n.op, ast.Not) for n in ast.walk(rt.node)) and \
+        all(norm(r.value) == rp for r in own_nodes(rt.node) if isinstance(r, ast.Return))
     chk.ob(rule, '_remove_trailing only cuts empty slots off the end', ok, '', rt.loc, key='%s|trailing' % rule)
     # Segment.to_er7 keeps one slot per entry (empty string for a missing child)
     st = ix.func('core.Segment.to_er7')
@@ -189,8 +194,17 @@ def open_ended(chk, c, rule):
     chk.ob(rule, '_get_children emits one slot for each index last_allowed+1 .. last_used', ok, '', gc.loc, key='%s|range' % rule)
     ad = ix.func('core.Segment.add')
     src = [norm(n) for n in own_nodes(ad.node) if isinstance(n, (ast.Assign, ast.If))]
-    ok = 'field_index = int(obj.name[4:])' in src and any(
-        s.startswith('if field_index > self._last_child_index:') and 'self._last_child_index = field_index' in s for s in src)
+    objp = ad.call_params()[0]
+    idx_var = None
+    for n in own_nodes(ad.node):
+        if isinstance(n, ast.Assign) and isinstance(n.targets[0], ast.Name) and norm(n.value) in (
+                'int(%s.name[4:])' % objp, "int(%s.name.split('_')[-1])" % objp, "int(%s.name.split('_')[1])" % objp,
+                "int(%s.name.rsplit('_', 1)[1])" % objp):
+            idx_var = n.targets[0].id
+    ok = idx_var is not None and (any(
+        s.startswith('if %s > self._last_child_index:' % idx_var) and 'self._last_child_index = %s' % idx_var in s for s in src) or any(
+        s in ('self._last_child_index = max(self._last_child_index, %s)' % idx_var,
+              'self._last_child_index = max(%s, self._last_child_index)' % idx_var) for s in src))
     chk.ob(rule, 'add() raises last_used to the suffix of the added field iff greater', ok, '', ad.loc, key='%s|add' % rule)
     ini = ix.func('core.Segment.__init__')
     src = {norm(n) for n in own_nodes(ini.node) if isinstance(n, ast.Assign)}
@@ -216,7 +230,7 @@ def msh_pairing(chk, c, rule):
     chk.ob(rule, 'parse_fields inserts MSH_1 = field separator', ok1, '', pf.loc, key='%s|insert' % rule)
     ok2 = False
     for n in own_nodes(pf.node):
-        if isinstance(n, ast.If) and norm(n.test) == "name == 'MSH_2'":
+        if isinstance(n, ast.If) and norm(n.test) in ("name == 'MSH_2'", "name in ('MSH_2',)", "name in ['MSH_2']", "'MSH_2' == name"):
             ok2 = not any(isinstance(x, ast.Call) and isinstance(x.func, ast.Attribute) and x.func.attr == 'split'
                           for b in n.body for x in ast.walk(b)) and any('parse_field(field,' in norm(b) for b in n.body)
     chk.ob(rule, 'parse_fields does not split MSH_2 on the repetition separator', ok2, '', pf.loc, key='%s|msh2' % rule)
